@@ -47,7 +47,11 @@ def state_key(sc, ex):
                                    if k not in ('world', 'sc', 'ex', 'h', 'run_one', 'gen', '_gen')))
                 stack.append((f.f_code.co_name, f.f_lasti, loc))
         blocked = sc.blocked.get(tid)
-        parts.append((tid, tuple(stack), id(blocked) if blocked is not None else None, c.walk(sc.results.get(tid))))
+        label = None
+        if blocked is not None:
+            label = 'session-lock' if blocked is getattr(ex.ws.session, '_lock', None) else \
+                'send-lock' if blocked is getattr(ex.ws.state, 'send_lock', None) else 'other-lock'
+        parts.append((tid, tuple(stack), label, c.walk(sc.results.get(tid))))
     return canon.digest(tuple(parts))
 
 
